@@ -89,7 +89,9 @@ func Spellings() []Input {
 	add := func(name, body string) {
 		in = append(in, Input{"spelling: " + name, "package p\n\ntempl c() {\n\t<section>\n\t\t{ children... }\n\t</section>\n}\n\ntempl T(x string, xs []string, b bool) {\n" + body + "\n}\n"})
 	}
-	vals := []string{"?q=1&amp;copy=2&amp;region=eu", "&amp;lt", "&amp;#60", "&amp;amp", "x&amp;reg;y", "&amp;notit;", "plain", "a&amp;b", "&lt;tag&gt;", "&quot;q&quot;", "&#39;s&#39;", "&amp;lt;", "it's", "say \"hi\"", "a  b", "é&eacute;", "&copy", "&amp;amp;"}
+	vals := []string{"?q=1&amp;copy=2&amp;region=eu", "&amp;lt", "&amp;#60", "&amp;amp", "x&amp;reg;y", "&amp;notit;", "plain", "a&amp;b", "&lt;tag&gt;", "&quot;q&quot;", "&#39;s&#39;", "&amp;lt;", "it's", "say \"hi\"", "a  b", "é&eacute;", "&copy", "&amp;amp;",
+		// values that are empty, blank, or look like something else once the quotes are gone
+		"", " ", "true", "{ x }", "a\\d{3}b", "&nbsp;", "a&#9;b", "&#173;"}
 	for _, v := range vals {
 		for _, q := range []string{`"`, `'`} {
 			if strings.Contains(v, q) {
@@ -99,6 +101,7 @@ func Spellings() []Input {
 			add(fmt.Sprintf("constant attribute %s%s%s next to expression attribute", q, v, q), "\t<a href="+q+v+q+" class={ x }>{ x }</a>")
 		}
 	}
+	add("empty attribute values on void and boolean-looking attributes", "\t<input value=\"\" alt='' disabled=\"\" hidden/>\n\t<img alt=\"\" src=\"x\"/>")
 	inner := []string{"{ x }", "@c()", "@c() {\n\t<b>k</b>\n}", "{ children... }", "<script>var a = 1;</script>", "<style>a{}</style>", "<!-- c -->", "if b {\n\t<b>y</b>\n}", "for _, v := range xs {\n\t<b>{ v }</b>\n}", "text", "<br/>", "<b>bold</b>", "{ x /* c */ }", "{ fmt.Sprint(\n\tx,\n) }", "{ x... }", "{ xs... }",
 		// elements whose tag the formatter lays out over several lines although it was written on one
 		"<span if b { class=\"a\" }>x</span>", "<a href=\"u\" if b { target=\"_blank\" }>l</a>", "<input if b { disabled }/>", "<b title=\"&#10;\">y</b>", "<i title={ /* c */ x }>z</i>",
